@@ -102,8 +102,12 @@ func C17(tier string) {
 				r.Violate(key+"/read-buffered", fmt.Sprintf("ReadProfile failed on a well-formed profile read through bufio over 1000-byte deliveries: %v [%s]", err2, what), cs(), nil)
 				return
 			}
-			d1, e1 := p.Description()
-			d2, e2 := p2.Description()
+			var d1, d2 string
+			var e1, e2 error
+			r.Guard(key+"/panic", func() {
+				d1, e1 = p.Description()
+				d2, e2 = p2.Description()
+			})
 			if oneOf != nil && len(oneOf) == 1 && (d1 != d2 || (e1 == nil) != (e2 == nil)) {
 				r.Violate(key+"/description-buffered", fmt.Sprintf("Description differs when the profile is read through bufio over 1000-byte deliveries: %q (%v) vs %q (%v) [%s]", d2, e2, d1, e1, what), cs(), nil)
 			}
